@@ -406,9 +406,15 @@ class World:
                     return i
             return "other"
 
+        # the context-manager bookkeeping is private state, used for the canonical key only (never by the oracle):
+        # two histories that agree on everything public may still differ in which `with` block the connection
+        # thinks it is in, and a future execute / begin consults exactly that
         return (
             tuple(bool(h.is_active) for h in hs), conn.closed, conn.invalidated,
             idx(conn.get_transaction()), idx(conn.get_nested_transaction()),
+            idx(getattr(conn, "_trans_context_manager", None)),
+            tuple(idx(getattr(h, "_outer_trans_ctx", None)) for h in hs),
+            tuple(getattr(h, "_trans_subject", None) is not None for h in hs),
         )
 
 
